@@ -61,7 +61,7 @@ def run(c):
             ev2 = [{k: v for k, v in x.items() if k not in ("sc", "i", "panic")} for x in r2.get(s["sc"], [])]
             if not c.validate_traces("SigDbTrace", "SigDbTrace.cfg", ev2):
                 raise vf.FrameworkError("rejection not reproduced")
-        c.report(key, "event %s -> %s is not allowed by the specification" % (e.get("op"), e.get("res")), {"ops": scen[owner[i]]["ops"], "event": e})
+        c.report(key, "event %s -> %s is not allowed by the specification" % (e.get("op"), e.get("res")), dict({"ops": scen[owner[i]]["ops"], "event": e}, **c.rp("sigdb", scen[owner[i]], validate=("SigDbTrace", "SigDbTrace.cfg"))))
     nrecode = sum(1 for e in events if e.get("op") == "recode")
     if nrecode == 0:
         raise vf.FrameworkError("no recode events recorded")
